@@ -325,7 +325,7 @@ impl<'a> InputGen<'a> {
                 } else {
                     near_miss(rng, &base)
                 };
-                if !name.contains("::") && !addressable(&name) {
+                if !addressable(&name) {
                     return None;
                 }
                 let it = match rng.below(3) {
@@ -517,6 +517,10 @@ pub enum Ctx<'a> {
 
 /// a name at edit distance 0..2 of `base`
 pub fn near_miss(rng: &mut Rng, base: &str) -> String {
+    // a name of several segments stays a path: the edits fall into one segment
+    if let Some((head, last)) = base.rsplit_once("::") {
+        return if rng.coin() { format!("{head}::{}", near_miss(rng, last)) } else { format!("{}::{last}", near_miss(rng, head)) };
+    }
     let mut cs: Vec<char> = base.chars().collect();
     let edits = rng.weighted(&[1, 5, 3, 1]);
     for _ in 0..edits {
